@@ -243,8 +243,11 @@ func c16RunPPPoE(c *sim.Ctx) {
 		peers = append(peers, newPeer(i, net.HardwareAddr{0x02, 0xaa, 0, 0, 0, byte(i + 1)}))
 	}
 	ctx, cancel := context.WithCancel(context.Background())
-	defer cancel()
-	c.S.Spawn("pppoe-cleanup", nil, func() { srv.VerifRunCleanup(ctx) })
+	cleanup := c.S.Spawn("pppoe-cleanup", nil, func() { srv.VerifRunCleanup(ctx) })
+	defer func() {
+		cancel()
+		c.S.Join(cleanup) // leave no goroutine behind in the bubble
+	}()
 
 	deliver := func(p *c16pPeer, kind string, disc bool, payload []byte) {
 		c.S.Logf("rx %s from p%d sid=%d", kind, p.idx, p.sid)
@@ -510,5 +513,5 @@ func c16RunPPPoE(c *sim.Ctx) {
 }
 
 func init() {
-	c16Variants["pppoe-server"] = &c16Variant{gen: c16GenPPPoE, run: c16RunPPPoE, weight: 200}
+	c16Variants["pppoe-server"] = &c16Variant{gen: c16GenPPPoE, run: c16RunPPPoE, weight: 6}
 }
